@@ -164,4 +164,7 @@ func init() {
 		"	for _, n := range snap.Nodes {\n\n		// If we have a node that the initiator doesn't have,", "	if len(sync.Digests) > len(snap.Nodes) {\n		return ack\n	}\n	for _, n := range snap.Nodes {\n\n		// If we have a node that the initiator doesn't have,", "C12.R2.complete")
 	mut("C12", "sync skips the digest of the host itself", "aspen/internal/cluster/gossip/gossip.go",
 		"		n, ok := snap.Nodes[dig.Key]\n\n		// If we have a more recent", "		if dig.Key == snap.HostKey {\n			continue\n		}\n		n, ok := snap.Nodes[dig.Key]\n\n		// If we have a more recent", "C12.R2.complete")
+
+	mut("C13", "disconnecting a subscriber waits for its handler under the observer mutex", "x/go/observe/observe.go",
+		"		a.mu.Lock()\n		delete(a.handlers, h)\n		a.mu.Unlock()\n", "		a.mu.Lock()\n		defer a.mu.Unlock()\n		delete(a.handlers, h)\n", "C13.R5.nowait")
 }
